@@ -162,6 +162,24 @@ pub fn run(tape: &mut Tape, props: Props, p: &Params, trace_on: bool) -> Outcome
     for c in cfgs.iter_mut() {
         c.seed = 100 + tape.draw(1 << 20);
     }
+    // narrow IPv4 subnets: a /30 (broadcast 10.0.0.3) or a point-to-point /31, which has no broadcast address at
+    // all (RFC 3021) - both of its addresses are ordinary hosts
+    let mut subnet = 24u8;
+    if !v6 {
+        match tape.draw(8) {
+            7 => {
+                subnet = 31;
+                cfgs[0].addrs = vec![(IpAddr::V4([10, 0, 0, 2]), 31)];
+                cfgs[1].addrs = vec![(IpAddr::V4([10, 0, 0, 3]), 31)];
+            }
+            6 => {
+                subnet = 30;
+                cfgs[0].addrs = vec![(IpAddr::V4([10, 0, 0, 1]), 30)];
+                cfgs[1].addrs = vec![(IpAddr::V4([10, 0, 0, 2]), 30)];
+            }
+            _ => {}
+        }
+    }
     let backpressure = tape.draw(4) == 3;
     let mut link = LinkCfg::draw(tape, if p.thorough { 60 } else { 20 });
     // checksum offload variants (rare); corruption only when everything is verified in software
@@ -215,7 +233,7 @@ pub fn run(tape: &mut Tape, props: Props, p: &Params, trace_on: bool) -> Outcome
         }
     }
     let ops = tape.range(5, if p.thorough { 400 } else { 120 }) as u32;
-    let desc = format!("dgram-pair medium={:?} v6={} mtu={:?} backpressure={} frag_heavy={} exact={} ops={} socks:{} {}", medium, v6, mtu, backpressure, p.frag_heavy, p.exact, ops, desc_socks, link.describe());
+    let desc = format!("dgram-pair medium={:?} v6={} /{} mtu={:?} backpressure={} frag_heavy={} exact={} ops={} socks:{} {}", medium, v6, subnet, mtu, backpressure, p.frag_heavy, p.exact, ops, desc_socks, link.describe());
     let mut w = World::new(nodes, views, link, props, trace_on);
     w.schedule(0, Ev::App { node: 0 });
     w.schedule(0, Ev::App { node: 1 });
@@ -572,6 +590,11 @@ fn service(w: &mut World, st: &mut St, n: usize, tape: &mut Tape) -> Result<(), 
         if !did || rounds >= 20 {
             break;
         }
+        // the usual event loop shape: poll, socket calls, then straight to poll_at to decide how long to sleep
+        if tape.chance(1, 5) {
+            w.stats.inc("sched.sleep-decided-right-after-socket-calls");
+            break;
+        }
     }
     let d = w.refresh_deadline(n)?;
     if let Some(at) = d {
@@ -906,7 +929,7 @@ fn app_step(w: &mut World, st: &mut St, n: usize, tape: &mut Tape) -> Result<boo
             0..=4 => did |= do_send(w, st, n, si, tape)?,
             5..=7 => did |= do_recv(w, st, n, si, tape, 0)?,
             8 => {
-                let mode = 1 + tape.draw(3);
+                let mode = 1 + tape.draw(5);
                 did |= do_recv(w, st, n, si, tape, mode as u8)?
             }
             _ => {
@@ -1067,7 +1090,8 @@ fn do_send(w: &mut World, st: &mut St, n: usize, si: usize, tape: &mut Tape) -> 
     }
 }
 
-/// mode 0: recv; 1: recv_slice into a too-small buffer; 2: peek then recv; 3: peek_slice small
+/// mode 0: recv; 1: recv_slice into a too-small buffer; 2: peek then recv; 3: peek_slice small;
+/// 4: peek_slice into a roomy buffer, then recv; 5: recv_slice into a roomy buffer
 fn do_recv(w: &mut World, st: &mut St, n: usize, si: usize, _tape: &mut Tape, mode: u8) -> Result<bool, Violation> {
     let name = w.nodes[n].name;
     let s = &mut st.socks[n][si];
@@ -1118,6 +1142,40 @@ fn do_recv(w: &mut World, st: &mut St, n: usize, si: usize, _tape: &mut Tape, mo
                         None
                     }
                 }
+                4 | 5 => {
+                    let room = head.as_ref().map(|(hb, _)| hb.len()).unwrap_or(0) + (mode as usize - 4) * 7;
+                    let mut buf = vec![0xa5u8; room + 3];
+                    let q0 = so.recv_queue();
+                    if mode == 4 {
+                        let r = guard("udp::peek_slice", || so.peek_slice(&mut buf[..room]).ok().map(|(k, m)| (k, *m)))?;
+                        match (&head, &r) {
+                            (Some((hb, hm)), Some((k, m))) => {
+                                if *k != hb.len() || buf[..*k] != hb[..] || hm.endpoint != m.endpoint || hm.local_address != m.local_address || buf[room..] != [0xa5u8; 3] {
+                                    return Err(viol("C09", "rx-fifo", "C09.rx/peek-slice-disagree", format!("peek_slice into {} bytes returned {} bytes that are not the {} byte head datagram peek shows", room, k, hb.len())));
+                                }
+                            }
+                            (None, None) => {}
+                            _ => return Err(viol("C09", "rx-fifo", "C09.rx/peek-slice-disagree", "peek and peek_slice disagree on emptiness".to_string())),
+                        }
+                        if so.recv_queue() != q0 {
+                            return Err(viol("C09", "truncated", "C09.rx/peek-consumed", "peek_slice changed the receive queue".to_string()));
+                        }
+                        w.stats.inc("dgram.peek-slice");
+                        return Ok(false);
+                    }
+                    let r = guard("udp::recv_slice", || so.recv_slice(&mut buf[..room]).ok())?;
+                    match (head, r) {
+                        (Some((hb, hm)), Some((k, m))) => {
+                            if k != hb.len() || buf[..k] != hb[..] || hm.endpoint != m.endpoint || hm.local_address != m.local_address || buf[room..] != [0xa5u8; 3] {
+                                return Err(viol("C09", "rx-fifo", "C09.rx/peek-recv-disagree", format!("recv_slice into {} bytes returned {} bytes that are not the {} byte head datagram peek showed", room, k, hb.len())));
+                            }
+                            w.stats.inc("dgram.recv-slice");
+                            Some(Arrival { payload: hb, src: crate::mk::from_smol(&m.endpoint.addr), sport: m.endpoint.port, dst: m.local_address.map(|a| crate::mk::from_smol(&a)).unwrap_or(st.addrs[n]) })
+                        }
+                        (None, None) => None,
+                        _ => return Err(viol("C09", "rx-fifo", "C09.rx/peek-recv-disagree", "peek and recv_slice disagree on emptiness".to_string())),
+                    }
+                }
                 _ => {
                     let r = guard("udp::recv", || so.recv().ok().map(|(b, m)| (b.to_vec(), m)))?;
                     match (&head, &r) {
@@ -1137,7 +1195,40 @@ fn do_recv(w: &mut World, st: &mut St, n: usize, si: usize, _tape: &mut Tape, mo
         }
         Kind::Icmp => {
             let so = w.nodes[n].sockets.get_mut::<icmp::Socket>(s.h);
-            let r = guard("icmp::recv", || so.recv().ok().map(|(b, a)| (b.to_vec(), a)))?;
+            let q0 = so.recv_queue();
+            let r = match mode {
+                1 | 3 => {
+                    // no ICMP message is shorter than its 8 octet header: this buffer is always too small, and the
+                    // documented outcome is that the head message is dropped
+                    let mut small = [0u8; 7];
+                    let r = guard("icmp::recv_slice", || so.recv_slice(&mut small).map(|(k, _)| k))?;
+                    match r {
+                        // (a queue holding only ring padding reports a non-zero length and is still exhausted)
+                        Err(icmp::RecvError::Exhausted) => {}
+                        Err(icmp::RecvError::Truncated) if q0 > 0 && so.recv_queue() < q0 => w.stats.inc("dgram.truncated-recv"),
+                        other => {
+                            return Err(viol("C09", "truncated", "C09.rx/short-buffer-not-truncated", format!("icmp recv_slice into 7 bytes with {} octets queued returned {:?}, {} octets queued afterwards", q0, other, so.recv_queue())));
+                        }
+                    }
+                    return Ok(q0 != 0);
+                }
+                4 | 5 => {
+                    let mut buf = vec![0xa5u8; 4096];
+                    let r = guard("icmp::recv_slice", || so.recv_slice(&mut buf[..4093]).ok())?;
+                    if buf[4093..] != [0xa5u8; 3] {
+                        return Err(viol("C09", "rx-fifo", "C09.rx/peek-recv-disagree", "icmp recv_slice wrote beyond the slice it was given".to_string()));
+                    }
+                    if let Some((k, _)) = r {
+                        // (the queue length may include ring padding in front of the message, which leaves with it)
+                        if so.recv_queue() + k > q0 {
+                            return Err(viol("C09", "rx-fifo", "C09.rx/peek-recv-disagree", format!("icmp recv_slice returned {} octets, receive queue {} -> {}", k, q0, so.recv_queue())));
+                        }
+                        w.stats.inc("dgram.recv-slice");
+                    }
+                    r.map(|(k, a)| (buf[..k].to_vec(), a))
+                }
+                _ => guard("icmp::recv", || so.recv().ok().map(|(b, a)| (b.to_vec(), a)))?,
+            };
             match r {
                 None => None,
                 Some((b, a)) => {
